@@ -106,7 +106,8 @@ impl FakeHttps {
     }
 
     pub fn set(&self, url: &str, reply: Reply) {
-        let key = url.trim_start_matches("https://").to_string();
+        let key = url.trim_start_matches("https://").trim_start_matches("HTTPS://");
+        let key = match key.split_once('/') { Some((h, rest)) => format!("{}/{}", h.to_ascii_lowercase(), rest), None => key.to_string() };
         self.script.lock().unwrap().replies.insert(key, reply);
     }
 
@@ -157,7 +158,7 @@ async fn serve(mut sock: TcpStream, acceptor: TlsAcceptor, script: Arc<Mutex<Scr
         let reply = {
             let mut s = script.lock().unwrap();
             s.log.push(LoggedRequest { mono: crate::hooks::mono_ns(), method: method.clone(), host: host.clone(), path: path.clone(), headers: headers.clone() });
-            let key = format!("{host}{path}");
+            let key = format!("{}{path}", host.to_ascii_lowercase());
             s.replies.get(&key).cloned().or_else(|| s.fallback.clone()).unwrap_or_else(|| Reply::status(404))
         };
         if reply.delay_ms > 0 { tokio::time::sleep(Duration::from_millis(reply.delay_ms)).await; }
